@@ -343,6 +343,10 @@ func (self *BinaryConv) unmarshalMap(ctx context.Context, resp http.ResponseSett
 	}
 	mapKeyDesc := fd.Key()
 	isIntKey := (mapKeyDesc.Type() == proto.INT32) || (mapKeyDesc.Type() == proto.INT64) || (mapKeyDesc.Type() == proto.UINT32) || (mapKeyDesc.Type() == proto.UINT64)
+	if mapKeyDesc.Type() == proto.INT64 && self.opts.Int642String {
+		// the key is already written as a quoted string
+		isIntKey = false
+	}
 	if isIntKey {
 		*out = append(*out, '"')
 	}
